@@ -139,6 +139,11 @@ theorem C03_total (opt : Bool) (data : Bytes) :
 example : parse true [0x04, 0x00] = .error .syntax ∧ parse true [0x82] = .ok [] ∧
     parse true [0x82, 0x2d] = .error .eof := ⟨rfl, rfl, rfl⟩
 
+/-- The hypothesis `Lexes data L` of the two theorems below is dischargeable and determines `L`: every byte
+string (accepted or not) has exactly one lexeme list. -/
+theorem C03_lexes_exists (data : Bytes) : (∃ L, Lexes data L) ∧ (∀ L1 L2, Lexes data L1 → Lexes data L2 → L1 = L2) :=
+  ⟨lexes_exists data.length data (Nat.le_refl _), fun _ _ h1 h2 => h1.unique h2⟩
+
 /-- **The tape mirrors the lexeme stream — for EVERY accepted byte string**, well-formed or a tolerated
 malformation (`=` inside arrays, a key without a value before `}`, bare values at the root, stray
 trailing byte, …), no document type involved.  `Lexes data L`: `L` is the lexeme list of the input
